@@ -30,11 +30,11 @@ from bqsim import core  # noqa: E402
 
 # tier -> (runs, wall cap seconds, determinism self-test runs)
 TIERS = {
-    'C09': {'quick': (4000, 240, 16), 'thorough': (60000, 1500, 48)},
+    'C09': {'quick': (3000, 240, 16), 'thorough': (60000, 1500, 48)},
     'C10': {'quick': (12000, 240, 16), 'thorough': (400000, 1500, 48)},
-    'C12': {'quick': (4000, 240, 16), 'thorough': (60000, 1500, 48)},
-    'C19': {'quick': (3000, 240, 12), 'thorough': (40000, 1500, 32)},
-    'C20': {'quick': (4500, 240, 16), 'thorough': (60000, 1500, 48)},
+    'C12': {'quick': (3200, 240, 16), 'thorough': (60000, 1500, 48)},
+    'C19': {'quick': (2700, 240, 12), 'thorough': (40000, 1500, 32)},
+    'C20': {'quick': (3000, 240, 16), 'thorough': (60000, 1500, 48)},
 }
 DEFAULT_SEED = 20260926
 
